@@ -152,6 +152,40 @@ func exploreHistory(ops []Op, exploreFrom, bound int, rep *hx.Report, sets *hx.S
 	check("FIFO", nil, outs)
 	sets.Add("states", verifrt.FreeDigest())
 	rep.Inc("histories", 1)
+	// state-directed deepening: a state in which a pool holds the same object twice is a state from
+	// which two later borrowers share an object. That is not an outcome yet (and nothing is reported
+	// for it), but it is worth extending with calls that keep many pooled objects live at once.
+	if !amplifying {
+		runHistory(ops, verifrt.PolicyLIFO, nil, -1, true)
+		if verifrt.HasDuplicates() {
+			rep.Inc("states_with_duplicate_pool_entries", 1)
+			key := ""
+			for _, o := range ops {
+				key += opKey(o) + "|"
+			}
+			if !amplified[key] && len(amplified) < 400 {
+				amplified[key] = true
+				amplifying = true
+				for _, amp := range c04amplifiers {
+					h := append(append([]Op(nil), ops...), amp)
+					exploreHistory(h, len(h)-1, 1, rep, sets, "deepened")
+				}
+				amplifying = false
+			}
+		}
+	}
+}
+
+var amplifying bool
+var amplified = map[string]bool{}
+
+// c04amplifiers keep many pooled results and validators live at once and report errors at every
+// level, so that two borrowers sharing one object show up as lost or foreign messages.
+var c04amplifiers = []Op{
+	{Kind: "against", Def: `{"type":"object","required":["r1"],"properties":{"k":{"enum":["x"]},"child":{"type":"object","required":["r2"],"properties":{"k":{"enum":["y"]},"child":{"type":"object","required":["r3"],"properties":{"k":{"enum":["z"]}},"patternProperties":{"^p":{"type":"integer"}}}},"patternProperties":{"^p":{"type":"integer"}}}},"patternProperties":{"^p":{"type":"integer"}}}`, Val: `{"k":1,"p1":"s","child":{"k":2,"p2":"s","child":{"k":3,"p3":"s"}}}`},
+	{Kind: "against", Def: `{"type":"array","items":{"type":"object","required":["n"],"properties":{"m":{"type":"string","minLength":3},"l":{"type":"array","items":{"type":"integer","maximum":1}}}}}`, Val: `[{"m":"a","l":[1,2]},{"n":1,"m":"ab","l":[3]},{"l":["x"]}]`},
+	{Kind: "against", Def: `{"allOf":[{"properties":{"a":{"type":"integer"}}},{"properties":{"b":{"type":"string"}},"required":["c"]},{"anyOf":[{"required":["d"]},{"properties":{"a":{"maximum":0}}}]}]}`, Val: `{"a":"x","b":1}`},
+	{Kind: "param", Def: `{"name":"p","in":"query","type":"array","items":{"type":"array","items":{"type":"string","minLength":2,"pattern":"^a"}}}`, Val: `[][]string:aa|ab;b`},
 }
 
 // shrinkHistory drops earlier operations while the observed one still differs from its solo outcome
@@ -196,7 +230,37 @@ func c04atoms() []string {
 	}
 	out = append(out, `{"anyOf":[{"type":"integer"},{"type":"string","minLength":2}]}`, `{"oneOf":[{"type":"integer"},{"maximum":2}]}`,
 		`{"allOf":[{"type":"string","format":"date"},{"type":"string","format":"email"}]}`)
+	seen := map[string]bool{}
+	var ded []string
+	for _, a := range out {
+		if !seen[a] {
+			seen[a] = true
+			ded = append(ded, a)
+		}
+	}
+	return ded
+}
+
+// c04compositions: allOf/anyOf/oneOf with two and three alternatives in every order of failing and
+// matching branches (which result is kept, merged or ditched depends on that order). They are used as
+// dirtying calls in front of a small set of observers (layer 1b).
+func c04compositions() []string {
+	var out []string
+	for _, a := range gen.Atoms() {
+		if strings.HasPrefix(a, `{"allOf":[`) || strings.HasPrefix(a, `{"anyOf":[`) || strings.HasPrefix(a, `{"oneOf":[`) {
+			if strings.Count(a, "},{") >= 1 && !strings.Contains(a, "$ref") {
+				out = append(out, a)
+			}
+		}
+	}
 	return out
+}
+
+var c04observers = []Op{
+	{Kind: "against", Def: `{"type":"object","required":["b"],"properties":{"a":{"type":"integer","maximum":2}}}`, Val: `{"a":3}`},
+	{Kind: "against", Def: `{"anyOf":[{"type":"integer"},{"type":"string","minLength":2}]}`, Val: `"a"`},
+	{Kind: "against", Def: `{"type":"array","items":{"type":"string","minLength":2}}`, Val: `["aa","b",3]`},
+	{Kind: "param", Def: `{"name":"p","in":"query","type":"array","items":{"type":"string","minLength":2}}`, Val: `[]string:aa|b`},
 }
 
 var c04dirtyInstances = []string{`1`, `3`, `"aa"`, `"a"`, `[1,2,3]`, `{"a":1,"b":2}`, `{"a":"x"}`, `null`}
@@ -263,7 +327,7 @@ func c04sigma(withSpec bool) []Op {
 		{Kind: "against", Def: `{"type":"integer","minimum":2}`, Val: `num:1.5`},
 		{Kind: "against", Def: `{"type":"number","maximum":2,"exclusiveMaximum":true}`, Val: `num:2`},
 		{Kind: "against", Def: `{"anyOf":[{"type":"integer"},{"type":"string","minLength":2},{"type":"array"}]}`, Val: `"aa"`},
-		{Kind: "against", Def: `{"oneOf":[{"type":"integer"},{"maximum":2},{"type":"string"}]}`, Val: `1`},
+		{Kind: "against", Def: `{"oneOf":[{"type":"string"},{"type":"integer"},{"maximum":2}]}`, Val: `1`},
 		{Kind: "against", Def: `{"allOf":[{"type":"string","format":"date"},{"type":"string","format":"email"}]}`, Val: `"x"`},
 		{Kind: "against", Def: `{"type":"integer","format":"int32","maximum":2}`, Val: `3000000000`},
 		{Kind: "against", Def: `{"type":"object","properties":{"a":{"type":"array","items":{"type":"object","properties":{"n":{"type":"integer","default":1}},"required":["n"]}}},"patternProperties":{"^x":{"type":"string"}},"additionalProperties":false}`, Val: `{"a":[{},{"n":"s"}],"xa":1,"zz":2}`},
@@ -284,6 +348,25 @@ func c04sigma(withSpec bool) []Op {
 // ---- check -----------------------------------------------------------------------------------
 
 func c04(c *hx.Ctx) int {
+	if len(c.Args) == 2 && c.Args[0] == "--history" {
+		// debugging aid: explore one history given as a JSON list of ops
+		var ops []Op
+		if err := json.Unmarshal([]byte(c.Args[1]), &ops); err != nil {
+			fmt.Println(err)
+			return 2
+		}
+		rep := hx.NewReport()
+		sets := hx.NewSetAdder()
+		exploreHistory(ops, len(ops)-1, 1, rep, sets, "debug")
+		for i, o := range ops {
+			fmt.Println(i, o, "solo:", soloOutcome(o).Key())
+		}
+		fmt.Println("executions", rep.Counters["executions"], "violations", len(rep.Violations), "double puts", verifrt.PoolStats.DoublePuts)
+		for _, v := range rep.Violations {
+			fmt.Println(v.What)
+		}
+		return 0
+	}
 	if c.Worker >= 0 {
 		return c04worker(c)
 	}
@@ -344,6 +427,22 @@ func c04worker(c *hx.Ctx) int {
 					op2 := Op{Kind: "against", Def: gen.WithDefs(b), Val: it}
 					exploreHistory([]Op{op1, op2}, 1, 1, rep, sets, "pair")
 				}
+			}
+		}
+	}
+	// ---- layer 1b: compositions as dirtying calls in front of the observers
+	for _, a := range c04compositions() {
+		if !mine() {
+			continue
+		}
+		if c.Expired() {
+			rep.Exhaustive = false
+			break
+		}
+		for _, di := range c04dirtyInstances {
+			op1 := Op{Kind: "against", Def: a, Val: di}
+			for _, obs := range c04observers {
+				exploreHistory([]Op{op1, obs}, 1, 1, rep, sets, "pair")
 			}
 		}
 	}
